@@ -298,6 +298,7 @@ func (sess *session) Attach(ctx context.Context, fid, afid Fid,
 	defer ref.Unlock()
 
 	ent, err := sess.fs.Attach(ctx, uname, aname, af)
+	err = EnsureNonNil(ent, err)
 	if err != nil {
 		sess.refs.Delete(fid)
 		return Qid{}, err
